@@ -510,6 +510,13 @@ def h5_md(draw, n):
             d[c] = draw(st.lists(_H5TEXT1, min_size=1, max_size=4))
     if not any(out):
         return None
+    if len(out) > 1 and len(out[0]) > 1 and draw(st.booleans()):
+        # the same categories in every record, not inserted in the same
+        # order (a record is a mapping)
+        for k in range(1, len(out)):
+            keys = list(out[k])
+            keys = keys[k % len(keys):] + keys[:k % len(keys)]
+            out[k] = {c: out[k][c] for c in keys}
     return out
 
 
